@@ -57,6 +57,9 @@ def font_clause(ck, tier, seed, tmp, exe):
             jid = "%s|%s" % (base, name)
             jobs.append({"font": path, "file": text, "dir": 1, "maxlines": maxlines, "id": jid, "prop": "C14"})
             jobs.append({"font": path, "file": text, "dir": 1, "maxlines": max(5, maxlines // 5), "opts": 7, "ppm": 20, "id": jid + "|o7"})
+            # ... and served through the table callbacks (what the library decompressed is its own: the client gets back
+            # the buffers it handed out and nothing else)
+            jobs.append({"font": path, "file": text, "dir": 1, "maxlines": 3, "src": "ops", "opts": 0 if len(jobs) % 2 else 3, "id": jid + "|ops", "prop": "C14"})
             groups.setdefault(base, []).append(jid)
         # arbitrary bytes: single-byte rewrites of the compressed payloads
         for t in ("Silf", "Glat"):
